@@ -430,11 +430,11 @@ func c18Shapes(c *Ctx) {
 		okConj := true
 		for _, b := range ct.Blocks {
 			for _, in := range b.Instrs {
-				ret, ok := in.(*ssa.Return)
+				ret, ok := core.AsReturn(in)
 				if !ok {
 					continue
 				}
-				for _, l := range core.FlattenPhi(ret.Results[0]) {
+				for _, l := range core.FlattenPhi(core.Res(ret, 0)) {
 					if bv, isC := core.ConstBool(l); isC {
 						if bv {
 							okConj = false
@@ -445,7 +445,7 @@ func c18Shapes(c *Ctx) {
 						okConj = false
 					}
 				}
-				if phi, isPhi := ret.Results[0].(*ssa.Phi); isPhi {
+				if phi, isPhi := core.Res(ret, 0).(*ssa.Phi); isPhi {
 					// a && b: phi [false from block testing a, b-value]
 					nonConst := 0
 					for _, e := range phi.Edges {
